@@ -134,6 +134,18 @@ func checkCmd(args []string) {
 			w = hc.Workers
 		}
 		x := &engine.Explorer{E: e, Harness: h, MaxPaths: hc.MaxPaths, Deadline: time.Now().Add(time.Duration(budget) * time.Second), Workers: w, SolverKind: hc.Solver, TimeoutMs: hc.TimeoutMs, Known: open}
+		// a second solver implementation re-decides a sample of the unsat verdicts (every 25th in the quick tier, every
+		// 5th in the thorough tier; VERIF_CROSS_EVERY overrides, 0 switches it off)
+		x.CrossKind, x.CrossEvery = "z3-new", 25
+		if *tier == "thorough" {
+			x.CrossEvery = 5
+		}
+		if hc.Solver != "z3" {
+			x.CrossKind = "z3"
+		}
+		if v := os.Getenv("VERIF_CROSS_EVERY"); v != "" {
+			x.CrossEvery, _ = strconv.Atoi(v)
+		}
 		r := x.Run()
 		results = append(results, r)
 		fmt.Print(r.Summary())
